@@ -15,6 +15,7 @@ import RbV.Thm.GenSrcOcc
 import RbV.Lemmas.SaisWidth
 import RbV.Gen.SaisWidth
 import RbV.Thm.GenSrcSus
+import RbV.Thm.GenSrcLcp
 /-!
 # C03 — suffix array = sorted permutation of all suffixes; LCP; shortest unique substrings
 
@@ -585,5 +586,37 @@ example : Gen.SrcSus.sus [7, 6, 3, 0, 4, 1, 5, 2] (lcpRef [71, 67, 84, 71, 67, 8
 -- the one-symbol text `$`: `max(-1, -1) as usize` is `usize::MAX`, `1 + …` overflows (panic with overflow checks; the
 -- mirror model, which reads `as usize` of a negative value as 0, says `[some 1]`) — outside `n ≥ 2`
 example : Gen.SrcSus.sus [0] [-1, -1] = Rs.Res.panic := by decide
+
+/-! ### translated text of `lcp` (Kasai; `RbV/Gen/SrcLcp.lean`, regenerated on every run; builder gensa, `tools/rs2lean_gensa.py`) -/
+
+/-- translated `lcp` = mirror model `Kasai.kasai` (inverse-permutation loop, `while` extension, `lcp.set(rank[p], l)`, `l - 1`)
+for every permutation `sa` of the positions of a non-empty text that starts with `n - 1`: no index out of range, no
+underflow of `rank[p] - 1`, the loop fuel `n + 1` suffices, `l as isize` is exact -/
+theorem lcp_source_eq_model (t sa : List Nat) (hperm : sa.Perm (List.range t.length))
+    (hhead : sa.head? = some (t.length - 1)) (hn : 0 < t.length) (hsz : t.length + 1 < 2 ^ 63) :
+    Gen.SrcLcp.lcp t sa = Rs.Res.ok (Kasai.kasai t sa) :=
+  Thm.GenSrcLcp.lcp_eq_model t sa hperm hhead hn hsz
+
+/-- **the translated `lcp` on every accepted suffix array of a single-sentinel text returns `lcpRef`** (length `n + 1`, `-1` at
+both ends, longest common prefix of neighbouring suffixes inside: `lcpRef_spec`) — no mirror model left between the text of
+the function and the reference -/
+theorem lcp_source_exact (t sa : List Nat) (hc : checkSA t sa = true)
+    (hsingle : ∀ p, t[p]? = some (sentinelOf t) → p = t.length - 1)
+    (hmin : ∀ p, p < t.length → sentinelOf t ≤ t.getD p 0) (hn : 2 ≤ t.length) (hsz : t.length + 1 < 2 ^ 63) :
+    Gen.SrcLcp.lcp t sa = Rs.Res.ok (lcpRef t sa) :=
+  Thm.GenSrcLcp.lcp_source_exact t sa (Kasai.sorted_of_checkSA_single t sa hc hsingle hmin) (by omega) hsz
+
+/-- the translated `lcp` refuses a suffix array of another length (`assert_eq!`) -/
+theorem lcp_source_length_mismatch_panics (t sa : List Nat) (h : t.length ≠ sa.length) :
+    Gen.SrcLcp.lcp t sa = Rs.Res.panic :=
+  Thm.GenSrcLcp.lcp_length_mismatch_panics t sa h
+
+-- the translated code evaluated: `abab$`, and the doc test `GCTGCTA$` through translated `lcp` then translated `sus`
+example : Gen.SrcLcp.lcp [1, 2, 1, 2, 0] [4, 2, 0, 3, 1] = Rs.Res.ok [-1, 0, 2, 0, 1, -1] := by decide
+example : (do let l ← Gen.SrcLcp.lcp [71, 67, 84, 71, 67, 84, 65, 36] [7, 6, 3, 0, 4, 1, 5, 2]
+              Gen.SrcSus.sus [7, 6, 3, 0, 4, 1, 5, 2] l)
+    = Rs.Res.ok [some 4, some 3, some 2, some 4, some 3, some 2, some 1, some 1] := by decide
+-- a first entry other than `n - 1`: `rank[p] - 1` underflows for the position of rank 0
+example : Gen.SrcLcp.lcp [1, 2, 0] [0, 2, 1] = Rs.Res.panic := by decide
 
 end RbV.Thm.C03
